@@ -31,6 +31,10 @@ pub enum Case {
     /// a Pair scenario during which one endpoint is handed `per_tick` copies of a keepalive sync frame after
     /// each of `ticks` ticks starting at `from_tick` (every sync frame is owed a reply)
     SyncFlood { sc: PairScenario, ep: u8, from_tick: u16, ticks: u16, per_tick: u8 },
+    /// after a Pair scenario one endpoint is handed `frames` empty data frames whose ids lie `spacing` apart (ack
+    /// groups span 32 ids: hundreds of groups are owed at once, more than one ack frame holds), then it flushes
+    /// `flushes` times at one instant and keeps stepping
+    AckFlood { sc: PairScenario, ep: u8, frames: u16, spacing: u8, flushes: u8 },
 }
 
 fn run_endpoints(c: &EpRate) -> CaseResult {
@@ -113,6 +117,53 @@ fn run_endpoints(c: &EpRate) -> CaseResult {
         classes.push("endpoints_peer_receive_rate_is_the_binding_limit");
     }
     CaseResult::ok(nontrivial, classes)
+}
+
+fn run_ack_flood(sc: &PairScenario, ep: usize, frames: u16, spacing: u8, flushes: u8) -> CaseResult {
+    use uflow::verif::Serialize as _;
+    let mut sc = sc.clone();
+    sc.normalize();
+    let mut classes: Vec<&'static str> = vec!["ack_flood"];
+    let mut sim = SimPair::new(&sc);
+    for t in sc.ticks.iter() {
+        sim.run_tick(t);
+    }
+    // quiet stepping: the bucket fills
+    let idle = EpAct { step: true, sends: Vec::new(), flushes: 1 };
+    for _ in 0..100 {
+        sim.run_tick(&Tick { dt_us: 20_000, acts: [idle.clone(), idle.clone()] });
+    }
+    // the next frame id the endpoint expects from its peer, judged from what the peer has put on the wire
+    let mut next = sc.dirs[1 - ep].frm_base;
+    for w in sim.trace.wire[1 - ep].iter() {
+        if let Some(uflow::verif::Frame::DataFrame(df)) = uflow::verif::Frame::read(&w.bytes) {
+            if df.sequence_id.wrapping_sub(next) < 0x8000_0000 {
+                next = df.sequence_id.wrapping_add(1);
+            }
+        }
+    }
+    for j in 0..frames as u32 {
+        let f = uflow::verif::Frame::DataFrame(uflow::verif::DataFrame { sequence_id: next.wrapping_add(j * spacing.max(32) as u32), nonce: j % 2 == 0, datagrams: Vec::new() });
+        sim.handle_bytes(ep, &f.write());
+    }
+    let mut burst = [idle.clone(), idle.clone()];
+    burst[ep].flushes = flushes.max(1);
+    sim.run_tick(&Tick { dt_us: 0, acts: burst.clone() });
+    sim.run_tick(&Tick { dt_us: 0, acts: burst });
+    for _ in 0..60 {
+        sim.run_tick(&Tick { dt_us: 10_000, acts: [idle.clone(), idle.clone()] });
+    }
+    let owed = sim.trace.stats[ep].iter().map(|st| st.v.ack_queue_len).max().unwrap_or(0);
+    if owed > 161 {
+        classes.push("more_ack_groups_owed_than_one_frame_holds");
+    }
+    let trace = sim.finish();
+    if trace.wire[ep].len() <= 4000 {
+        if let Err(v) = check_rate_bound(&trace, ep, sc.dirs[ep].bw_limit as f64) {
+            return CaseResult { violation: Some(v), nontrivial: true, classes };
+        }
+    }
+    CaseResult::ok(owed > 161, classes)
 }
 
 /// Checks the leaky-bucket bound over every interval of frames emitted by endpoint `s`.
@@ -250,7 +301,18 @@ impl Check for C13 {
             sc.normalize();
             Case::SyncFlood { sc, ep, from_tick, ticks, per_tick }
         });
-        prop_oneof![10 => pair_strategy(tier).prop_map(Case::Pair), 2 => endpoints, 1 => flood].boxed()
+        let ack_flood = (pair_strategy(tier), 0u8..2, prop_oneof![170u16..400, 400u16..1500], prop_oneof![Just(32u8), Just(33u8), 32u8..64], 1u8..6).prop_map(|(mut sc, ep, frames, spacing, flushes)| {
+            // (a short history first, so that an RTT estimate exists and the bucket can be full)
+            sc.ticks.truncate(40);
+            for t in sc.ticks.iter_mut() {
+                for a in t.acts.iter_mut() {
+                    a.step = true;
+                }
+            }
+            sc.normalize();
+            Case::AckFlood { sc, ep, frames, spacing, flushes }
+        });
+        prop_oneof![20 => pair_strategy(tier).prop_map(Case::Pair), 4 => endpoints, 2 => flood, 1 => ack_flood].boxed()
     }
 
     fn cases(&self, tier: Tier) -> u64 {
@@ -258,7 +320,7 @@ impl Check for C13 {
     }
 
     fn rule(&self) -> String {
-        "two case kinds. Endpoints (1 in 6): a real Client and Server with independently generated max_send_rate / max_receive_rate (1472 B/s .. 2 MB/s, 2^32-1), Reliable backlogs in both directions, 0-2 extra flushes per step; for every pair of frames of a sender, bytes <= min(its max_send_rate, the PEER's max_receive_rate) * (dt + largest RTT estimate + 2 step gaps) + 2 * 1472. SyncFlood (1 in 13): a Pair scenario with a ceiling of 1472-6000 B/s and steps 1-5 ms apart during which one endpoint is handed 1-3 keepalive sync frames after each of 50-600 consecutive ticks (each is owed a reply). Pair: SimPair scenario with bandwidth ceilings log-spread over [1472 B/s, 20 MB/s] (and 2^32-1) on either side, backlogs from nothing to hundreds of kB, cadences with several flush() per step, dt = 0 and long pauses, loss / duplication / delay patterns that walk the rate controller through slow start, equation mode and no-feedback expiries. Oracle: for every pair of emitted frames i <= j of an endpoint, bytes(i..=j) <= C * ((t_j - t_i) + max rtt_s() reported in or just before the interval) + 1472 + one rounding byte per step in the interval. Non-trivial = the sender was credit-limited in at least one snapshot (negative credit with data queued). Distinct = distinct serialised scenario.".into()
+        "case kinds. AckFlood (1 in 27): after a short Pair history and two quiet seconds one endpoint is handed 170-1500 empty data frames whose ids lie 32-63 apart (every one of them is owed an ack group of its own: more than one ack frame holds), flushes one to five times at that instant and keeps stepping; the same bound applies to what it emits. Endpoints (1 in 6): a real Client and Server with independently generated max_send_rate / max_receive_rate (1472 B/s .. 2 MB/s, 2^32-1), Reliable backlogs in both directions, 0-2 extra flushes per step; for every pair of frames of a sender, bytes <= min(its max_send_rate, the PEER's max_receive_rate) * (dt + largest RTT estimate + 2 step gaps) + 2 * 1472. SyncFlood (1 in 13): a Pair scenario with a ceiling of 1472-6000 B/s and steps 1-5 ms apart during which one endpoint is handed 1-3 keepalive sync frames after each of 50-600 consecutive ticks (each is owed a reply). Pair: SimPair scenario with bandwidth ceilings log-spread over [1472 B/s, 20 MB/s] (and 2^32-1) on either side, backlogs from nothing to hundreds of kB, cadences with several flush() per step, dt = 0 and long pauses, loss / duplication / delay patterns that walk the rate controller through slow start, equation mode and no-feedback expiries. Oracle: for every pair of emitted frames i <= j of an endpoint, bytes(i..=j) <= C * ((t_j - t_i) + max rtt_s() reported in or just before the interval) + 1472 + one rounding byte per step in the interval. Non-trivial = the sender was credit-limited in at least one snapshot (negative credit with data queued). Distinct = distinct serialised scenario.".into()
     }
 
     fn assumptions(&self) -> Vec<String> {
@@ -273,6 +335,7 @@ impl Check for C13 {
             Case::Pair(sc) => (sc, None),
             Case::Endpoints { endpoints } => return run_endpoints(endpoints),
             Case::SyncFlood { sc, ep, from_tick, ticks, per_tick } => (sc, Some((*ep as usize % 2, *from_tick, *ticks, *per_tick))),
+            Case::AckFlood { sc, ep, frames, spacing, flushes } => return run_ack_flood(sc, *ep as usize % 2, *frames, *spacing, *flushes),
         };
         let mut sc = sc.clone();
         sc.normalize();
